@@ -79,32 +79,50 @@ Section FastDivide.
   Proof. exact (blockwise_stats fdiv fdiv_spec). Qed.
 End FastDivide.
 
-(* range transform of the bit-packed reader: exact whenever the upper end is not below the column
-   minimum *)
-Theorem C08_range_transform_exact : forall s lo hi q, st_gcd s <> 0 -> st_min s <= hi ->
-  match transform_range s lo hi with
+(* range transform of the bit-packed reader (`guard` = the source tests `*range.end() < stats.min_value`,
+   pinned as COLUMNAR_RANGE_BELOW_MIN_GUARD): exact whenever the guard is present or hi >= column min *)
+Theorem C08_range_transform_exact : forall guard s lo hi q, st_gcd s <> 0 -> (guard = true \/ st_min s <= hi) ->
+  match transform_range_g guard s lo hi with
   | None => ~ (lo <= st_min s + st_gcd s * q <= hi)
   | Some (a, b) => (a <= q <= b) <-> (lo <= st_min s + st_gcd s * q <= hi)
   end.
 Proof. exact transform_range_exact. Qed.
 
-(* range lookup on a bit-packed column = the rows holding a value in [lo, hi], for every column, every
-   row window and every range that is empty or does not lie entirely below the column minimum ... *)
+(* range lookup on a bit-packed column, for the code as pinned from /repo: exactly the rows holding a
+   value in [lo, hi], for EVERY column, row window and range.  The proof uses `range_guard_present`,
+   re-run on the regenerated constant: without the guard in the source this theorem no longer checks. *)
 Theorem C08_range_lookup_bitpacked : forall (fdiv : N -> N -> N),
   (forall d x, d <> 0 -> x < 2 ^ 64 -> fdiv d x = x / d) ->
   forall vals lo hi r0 r1, all_u64 vals -> (r1 <= length vals)%nat ->
-  f81_class lo hi (st_min (stats_of fdiv vals)) = false ->
   bitpacked_range_rows (bitpacked_serialize fdiv vals) lo hi r0 r1 = rows_in_range vals lo hi r0 r1.
 Proof.
-  intros fdiv Hf vals lo hi r0 r1 Hu Hr Hc. apply (bitpacked_range_exact fdiv Hf); try assumption.
+  intros fdiv Hf vals lo hi r0 r1 Hu Hr. unfold bitpacked_range_rows.
+  apply (bitpacked_range_exact fdiv Hf); try assumption. left. exact range_guard_present.
+Qed.
+
+(* the same for any guard value, outside the class of F81 *)
+Theorem C08_range_lookup_bitpacked_unguarded : forall (fdiv : N -> N -> N),
+  (forall d x, d <> 0 -> x < 2 ^ 64 -> fdiv d x = x / d) ->
+  forall guard vals lo hi r0 r1, all_u64 vals -> (r1 <= length vals)%nat ->
+  f81_class lo hi (st_min (stats_of fdiv vals)) = false ->
+  bitpacked_range_rows_g guard (bitpacked_serialize fdiv vals) lo hi r0 r1 = rows_in_range vals lo hi r0 r1.
+Proof.
+  intros fdiv Hf guard vals lo hi r0 r1 Hu Hr Hc. apply (bitpacked_range_exact fdiv Hf); try assumption. right.
   unfold f81_class in Hc. apply andb_false_iff in Hc. destruct Hc as [Hc|Hc]; [left; apply N.leb_gt, Hc|right; apply N.ltb_ge, Hc].
 Qed.
 
-(* ... F81 (genuine defect of the unchanged code): below the minimum the rows holding the minimum are returned *)
+(* F81 (fixed in /repo; regression witness): WITHOUT the guard the rows holding the minimum are returned
+   for a range below the minimum *)
 Theorem C08_range_below_min_refuted :
   exists vals lo hi, f81_class lo hi (st_min (stats_of udiv vals)) = true /\
-    bitpacked_range_rows (bitpacked_serialize udiv vals) lo hi 0 (length vals) <> rows_in_range vals lo hi 0 (length vals).
+    bitpacked_range_rows_g false (bitpacked_serialize udiv vals) lo hi 0 (length vals) <> rows_in_range vals lo hi 0 (length vals).
 Proof. exact bitpacked_range_below_min_refuted. Qed.
+
+(* ... and with the guard as pinned the same input is answered correctly *)
+Example range_below_min_regression :
+  bitpacked_range_rows (bitpacked_serialize udiv [10; 20; 30]) 3 5 0 3 = [] /\
+  bitpacked_range_rows (bitpacked_serialize udiv [10; 20; 30]) 3 10 0 3 = [0%nat].
+Proof. vm_compute. split; reflexivity. Qed.
 
 (* ---- monotonic mappings ---- *)
 Theorem C08_mono_maps_i64 : forall a b, is_i64 a -> is_i64 b ->
@@ -175,6 +193,7 @@ Print Assumptions C08_codec_exact_blockwise.
 Print Assumptions C08_codec_stats_blockwise.
 Print Assumptions C08_range_transform_exact.
 Print Assumptions C08_range_lookup_bitpacked.
+Print Assumptions C08_range_lookup_bitpacked_unguarded.
 Print Assumptions C08_range_below_min_refuted.
 Print Assumptions C08_mono_maps_i64.
 Print Assumptions C08_mono_maps_i64_onto.
